@@ -2,6 +2,7 @@ import Qryn.Proofs.PlanClosed
 import Qryn.Proofs.WfBuild
 import Qryn.LogQL.PlannerX
 import Qryn.LogQL.PlannerSeries
+import Qryn.Proofs.PlanLogXSplit
 /-! C10: the atoms of the extended LogQL log planner model `planLogX` / `planScript` (the SQL-side pipeline stages
     `| json l="path"`, `| regexp`, `| drop` and the filters placed after them) and of the series / label-values
     planners are well formed (`wfSel`), for every context with closed table names and EVERY query: labels and path parts
@@ -205,7 +206,8 @@ theorem wf_planLogX (c : Ctx) (fin : Bool) (q : LogQueryX) (ht : TablesOK c)
   have hts := wf_timeSeriesSel c (preQuery q) ha
   have hfc := wf_finalCols
   have hfo := wf_finalOrder c fin
-  unfold planLogX
+  rw [planLogX_eq_split]
+  unfold planLogXSplit
   simp only
   cases hpost : (splitPre q.stages).2 with
   | nil =>
